@@ -117,4 +117,10 @@ def mapDelete {κ ν : Type} [DecidableEq κ] (m : GoMap κ ν) (k : κ) : GoMap
 def mapEntries {κ ν : Type} (m : GoMap κ ν) : List (κ × ν) :=
   match m with | none => [] | some l => l
 
+/-- `len(m)` of a map -/
+def mapLen {κ ν : Type} (m : GoMap κ ν) : Int := ((mapEntries m).length : Int)
+
+/-- unsigned 64-bit subtraction (wraps) -/
+def usub (a b : Int) : Int := if a ≥ b then a - b else a - b + 18446744073709551616
+
 end Jwt.GoRt
